@@ -34,6 +34,7 @@ type tmplTpl struct {
 	Body []tmplNode `json:"body"`
 	Ext  bool       `json:"ext"`
 	Ovr  []tmplNode `json:"ovr"`
+	Bn   string     `json:"bn"`
 }
 
 // a TLA+ function with an empty domain is printed as [] and a non-empty one as an object
@@ -60,6 +61,51 @@ func (o tmplObj) keys() []string {
 	}
 	sort.Strings(ks)
 	return ks
+}
+
+// keys in ascending or descending order: the order in which the entries are handed to the library.
+// The library keeps variables and item fields in Go maps, whose iteration order depends on the
+// insertion order; every round is executed with both orders when a map has two or more entries.
+func (o tmplObj) ordered(rev bool) []string {
+	ks := o.keys()
+	if rev {
+		for i, j := 0, len(ks)-1; i < j; i, j = i+1, j-1 {
+			ks[i], ks[j] = ks[j], ks[i]
+		}
+	}
+	return ks
+}
+
+func tmplItemsMultiKey(items []tmplItem) bool {
+	for _, it := range items {
+		if it.K != "m" {
+			continue
+		}
+		if len(it.F) >= 2 {
+			return true
+		}
+		for _, raw := range it.F {
+			var fv tmplFieldVal
+			if json.Unmarshal(raw, &fv) == nil && fv.K == "l" && tmplItemsMultiKey(fv.L) {
+				return true
+			}
+		}
+	}
+	return false
+}
+
+// number of insertion orders worth executing: 2 if some map of the data has at least two entries
+func tmplOrders(d tmplData) int {
+	if len(d.Vars) >= 2 {
+		return 2
+	}
+	for _, raw := range d.Lists {
+		var items []tmplItem
+		if json.Unmarshal(raw, &items) == nil && tmplItemsMultiKey(items) {
+			return 2
+		}
+	}
+	return 1
 }
 
 type tmplItem struct {
@@ -120,6 +166,38 @@ var tmplValConc = map[string][]interface{}{
 	"s1": {"$1", "${1}x", "$0", "\\1", "$$", "a$"},
 	"w1": {"a\nb", "l1\nl2\nl3"},
 	"x1": {"[IMAGE:im1]", "[IMAGE:nope]"},
+}
+
+// reference values: text around the placeholder of the name the token stands for (Tmpl!RefName)
+var tmplRefName = map[string]string{"rv1": "v1", "rv2": "v2", "rf1": "f1", "rf2": "f2"}
+
+var tmplRefShape = []string{"%s", "write %s where the name goes", "%s%s", "[%s]", "see %s", "%s."}
+
+func init() {
+	for tok, name := range tmplRefName {
+		ph := "{{" + name + "}}"
+		for _, f := range tmplRefShape {
+			tmplValConc[tok] = append(tmplValConc[tok], strings.ReplaceAll(f, "%s", ph))
+		}
+	}
+}
+
+// quoted names (block names, the name of the extended template): identifiers and free text
+var tmplNameConc = map[string][]string{
+	"b1": {"b1", "content", "main_2", "B", "x9", "_a"},
+	"b2": {"b2", "footer", "side_bar", "Aa", "y_0", "__"},
+	"h1": {"main-content", "side bar", "块名", "a.b", "sec:1", "é"},
+	"h2": {"foot-note", "the end", "页脚", "c.d.e", "#2", "x y-z"},
+	"t1": {"base", "layout", "Base_2", "T", "tpl1", "_b"},
+	"t2": {"base-layout", "my base", "基础模板", "a.b", "x/y", "doc (v2)"},
+}
+
+func tmplName(tok string, round int) string {
+	c := tmplNameConc[tok]
+	if len(c) == 0 {
+		return "?name:" + tok
+	}
+	return c[(round+tmplHash(tok))%len(c)]
 }
 
 // value class "one very long line" (just over 64 KiB, the default token limit of bufio.Scanner): takes the
@@ -194,7 +272,7 @@ func tmplSeqText(ns []tmplNode, round int, sb *strings.Builder) {
 		case "last":
 			sb.WriteString("{{@last}}")
 		case "block":
-			sb.WriteString("{{#block \"" + n.N + "\"}}")
+			sb.WriteString("{{#block \"" + tmplName(n.N, round) + "\"}}")
 			tmplSeqText(n.A, round, sb)
 			sb.WriteString("{{/block}}")
 		case "img":
@@ -203,6 +281,13 @@ func tmplSeqText(ns []tmplNode, round int, sb *strings.Builder) {
 			sb.WriteString("?node:" + n.T)
 		}
 	}
+}
+
+func tmplBaseName(t tmplTpl, round int) string {
+	if t.Bn == "" {
+		return "base"
+	}
+	return tmplName(t.Bn, round)
 }
 
 func tmplTexts(t tmplTpl, round int) (base, child string) {
@@ -217,7 +302,7 @@ func tmplTexts(t tmplTpl, round int) (base, child string) {
 		sep = "\n"
 	}
 	var cb strings.Builder
-	cb.WriteString("{{extends \"base\"}}")
+	cb.WriteString("{{extends \"" + tmplBaseName(t, round) + "\"}}")
 	for _, b := range t.Ovr {
 		cb.WriteString(sep)
 		tmplSeqText([]tmplNode{b}, round, &cb)
@@ -227,15 +312,15 @@ func tmplTexts(t tmplTpl, round int) (base, child string) {
 
 // ---- data ---------------------------------------------------------------------
 
-func tmplItems(raw json.RawMessage, round int) ([]interface{}, error) {
+func tmplItems(raw json.RawMessage, round int, rev bool) ([]interface{}, error) {
 	var items []tmplItem
 	if err := json.Unmarshal(raw, &items); err != nil {
 		return nil, err
 	}
-	return tmplItemsOf(items, round)
+	return tmplItemsOf(items, round, rev)
 }
 
-func tmplItemsOf(items []tmplItem, round int) ([]interface{}, error) {
+func tmplItemsOf(items []tmplItem, round int, rev bool) ([]interface{}, error) {
 	out := make([]interface{}, 0, len(items))
 	for _, it := range items {
 		if it.K == "s" {
@@ -243,7 +328,7 @@ func tmplItemsOf(items []tmplItem, round int) ([]interface{}, error) {
 			continue
 		}
 		m := map[string]interface{}{}
-		for _, k := range it.F.keys() {
+		for _, k := range it.F.ordered(rev) {
 			var fv tmplFieldVal
 			if err := json.Unmarshal(it.F[k], &fv); err != nil {
 				return nil, err
@@ -251,7 +336,7 @@ func tmplItemsOf(items []tmplItem, round int) ([]interface{}, error) {
 			if fv.K == "v" {
 				m[k] = tmplVal(fv.V, round)
 			} else {
-				sub, err := tmplItemsOf(fv.L, round)
+				sub, err := tmplItemsOf(fv.L, round, rev)
 				if err != nil {
 					return nil, err
 				}
@@ -263,10 +348,11 @@ func tmplItemsOf(items []tmplItem, round int) ([]interface{}, error) {
 	return out, nil
 }
 
-func tmplBuildData(d tmplData, round int) (*document.TemplateData, error) {
+func tmplBuildData(d tmplData, round int, rev bool) (*document.TemplateData, error) {
 	td := document.NewTemplateData()
 	vals := map[string]interface{}{}
-	for _, k := range d.Vars.keys() {
+	order := d.Vars.ordered(rev)
+	for _, k := range order {
 		var tok string
 		if err := json.Unmarshal(d.Vars[k], &tok); err != nil {
 			return nil, err
@@ -276,8 +362,8 @@ func tmplBuildData(d tmplData, round int) (*document.TemplateData, error) {
 	// the documented ways of filling in variables
 	switch round % 4 {
 	case 0:
-		for k, v := range vals {
-			td.SetVariable(k, v)
+		for _, k := range order {
+			td.SetVariable(k, vals[k])
 		}
 	case 1:
 		td.SetVariables(vals)
@@ -289,11 +375,7 @@ func tmplBuildData(d tmplData, round int) (*document.TemplateData, error) {
 		td.Merge(other)
 	case 3:
 		// FromStruct lower-cases the exported field names: V1 -> v1
-		names := make([]string, 0, len(vals))
-		for k := range vals {
-			names = append(names, k)
-		}
-		sort.Strings(names)
+		names := order
 		fields := make([]reflect.StructField, 0, len(names))
 		for _, k := range names {
 			fields = append(fields, reflect.StructField{Name: strings.ToUpper(k[:1]) + k[1:], Type: reflect.TypeOf((*interface{})(nil)).Elem()})
@@ -314,7 +396,7 @@ func tmplBuildData(d tmplData, round int) (*document.TemplateData, error) {
 		td.SetCondition(k, b)
 	}
 	for _, k := range d.Lists.keys() {
-		items, err := tmplItems(d.Lists[k], round)
+		items, err := tmplItems(d.Lists[k], round, rev)
 		if err != nil {
 			return nil, err
 		}
@@ -348,7 +430,7 @@ func tmplBuildData(d tmplData, round int) (*document.TemplateData, error) {
 		}
 	}
 	for _, k := range d.Lists.keys() {
-		want, _ := tmplItems(d.Lists[k], round)
+		want, _ := tmplItems(d.Lists[k], round, rev)
 		if got, ok := td.GetList(k); !ok || !reflect.DeepEqual(got, want) {
 			return nil, fmt.Errorf("GetList(%s) does not return the stored list", k)
 		}
@@ -425,7 +507,7 @@ func tmplWant(exp []string, round int) string {
 }
 
 // one concretisation round: ret, template text, got, want
-func tmplRound(c *tmplCase, round int) (ret, text, got, want, pmsg string) {
+func tmplRound(c *tmplCase, round int, rev bool) (ret, text, got, want, pmsg string) {
 	base, child := tmplTexts(c.Tpl, round)
 	text = base
 	if c.Tpl.Ext {
@@ -433,16 +515,16 @@ func tmplRound(c *tmplCase, round int) (ret, text, got, want, pmsg string) {
 	}
 	want = tmplWant(c.Exp, round)
 	ret, pmsg = guard(func() string {
-		td, err := tmplBuildData(c.Data, round)
+		td, err := tmplBuildData(c.Data, round, rev)
 		if err != nil {
 			got = "!" + err.Error()
 			return "dataerr"
 		}
 		eng := document.NewTemplateEngine()
-		if _, err := eng.LoadTemplate("base", base); err != nil {
+		name := tmplBaseName(c.Tpl, round)
+		if _, err := eng.LoadTemplate(name, base); err != nil {
 			return "loaderr"
 		}
-		name := "base"
 		if c.Tpl.Ext {
 			if _, err := eng.LoadTemplate("child", child); err != nil {
 				return "loaderr"
@@ -472,7 +554,7 @@ func tmplRound(c *tmplCase, round int) (ret, text, got, want, pmsg string) {
 func runTmpl(c Case, emit Emitter) {
 	var tc tmplCase
 	if err := json.Unmarshal(c.Extra, &tc); err != nil {
-		emit(Ev{"ev": "step", "case": c.ID, "tpl": map[string]interface{}{"body": []int{}, "ext": false, "ovr": []int{}},
+		emit(Ev{"ev": "step", "case": c.ID, "tpl": map[string]interface{}{"body": []int{}, "ext": false, "ovr": []int{}, "bn": "t1"},
 			"data": map[string]interface{}{}, "exp": []string{"?bad-case"}, "ret": "badcase", "ok": false,
 			"round": 0, "text": "", "got": "", "want": "", "pmsg": err.Error()})
 		return
@@ -486,15 +568,18 @@ func runTmpl(c Case, emit Emitter) {
 	ev := Ev{"ev": "step", "case": c.ID, "tpl": raw.Tpl, "data": raw.Data, "exp": raw.Exp}
 	allOK := true
 	first := true
+	orders := tmplOrders(tc.Data)
 	for r := 0; r < tmplRounds; r++ {
-		ret, text, got, want, pmsg := tmplRound(&tc, r)
-		good := ret == "ok" && got == want
-		if first || (!good && allOK) {
-			ev["ret"], ev["round"], ev["text"], ev["got"], ev["want"], ev["pmsg"] = ret, r, text, got, want, pmsg
-			first = false
-		}
-		if !good {
-			allOK = false
+		for o := 0; o < orders; o++ {
+			ret, text, got, want, pmsg := tmplRound(&tc, r, o == 1)
+			good := ret == "ok" && got == want
+			if first || (!good && allOK) {
+				ev["ret"], ev["round"], ev["text"], ev["got"], ev["want"], ev["pmsg"] = ret, r, text, got, want, pmsg
+				first = false
+			}
+			if !good {
+				allOK = false
+			}
 		}
 	}
 	ev["ok"] = allOK
